@@ -176,7 +176,7 @@ SHAPES = [("flat", s_flat, FLAT), ("nested", s_nested, NESTED), ("subclass", s_s
 # ------------------------------------------------------------------ the value grammar
 V_SCALAR = ["1", "abc", "", " ", "null", "true", "-1", "1.5", "0x_", "0b_", "._", "-._", "+.__", ".inf", ".nan", "1e3", "1_000", "1:30", "~", "2020-01-01",
             "=", "-", "--", "---", "...", "-x", "+", "%", "@", "`", "!", "!!", "&", "&a", "*", "*a", "|", ">", "?", ":", "a:", ": a", "#", "\t", "\n", "\x00",
-            "\x85", "\ufeff", "\u00e9", "\U0001F600", "x" * 70000, "9" * 5000, "1e999", "-0", "0o8", "08", "1__", "on", "No"]
+            "\x85", "\ufeff", "\u00e9", "\U0001F600", "x" * 70000, "9" * 5000, "1" + "0" * 400, "1e999", "-0", "0o8", "08", "1__", "on", "No"]
 V_BROKEN = ["{", "}", "[", "]", "{a", "{a:", "{a: 1", '{"a":', '{"a": 1,}', "[1,", "[1 2]", '"abc', "'abc", "{{", "[[", "{]", "- a\n-", "a: 1\n b: 2", "a:\n- 1\n b",
             "{a: 1}: 2", "? [a]\n: 1", "[a]: 1", "{? a}", "a: 1\na: 2", "<<: 1", "<<: [1]", "<<: *a", "{<<: {a: 1}}", "a: &x [*x]", "&x [*x]", "&x {a: *x}", "[&x a, *x]",
             "*undefined", "--- a\n--- b", "%YAML 1.1\n---\na", "%TAG ! x\n---", "%YAML 9.9\n--- a", "a: b: c", "\"\\x\"", "\"\\ud800\"", "[" * 400 + "]" * 400,
@@ -206,7 +206,7 @@ V_CLASS = [cp("Leaf"), "Leaf", "Base", "bounded.gen_f", cp("not_a_class"), cp("N
            '{"a": 1}', '{"a": "b"}', '{"a": {"b": 1}}', '{"1": 1}', "{1: 1}", "{null: 1}", "{true: 1}", "{[1]: 1}"]
 V_PATHS = ["<missing>", "<dir>", "<empty>", "<binary>", "<nulfile>", "<selfalias>", "<good>", "<unreadable>", "/dev/null", "/", "a\x00b", "x" * 5000, "~", "~nouser/x", "./", "..",
            "file:///tmp", "http://localhost:1/x", "<dir>/", "<good>/x"]
-QUICK_VALUES = ["1", "abc", "", "null", "._", "{", "!!timestamp x", "&x [*x]", "-", "--", "\x00", '{"class_path": 1}', cp("Leaf"), "os", "<missing>", "<dir>", "=",
+QUICK_VALUES = ["1", "abc", "", "null", "._", "1" + "0" * 400, "{", "!!timestamp x", "&x [*x]", "-", "--", "\x00", '{"class_path": 1}', cp("Leaf"), "os", "<missing>", "<dir>", "=",
                 "a: 1\n b: 2", "[._]", "{a: !!bool x}", cp("Nope"), "nonexistent.Mod"]
 
 NAME_VARIANTS = ["--N", "--N.", "--N..", "--N.zzq", "--N..zzq", "--N+", "--N++", "--N+.x", "--N.init_args", "--N.init_args.", "--N.init_args.zzq", "--N.init_args.req",
